@@ -60,7 +60,7 @@ def real_child_report(ran, fails, errs):
     return raw.getvalue()
 
 
-def real_parent(stderr, spawn_error=False, verbose=0):
+def real_parent(stderr, spawn_error=False, verbose=0, hold=None, wait=20):
     """Run the real parent on a scripted child.  Returns canonical outcome dict."""
     from zope.testrunner import runner
     out = io.StringIO()
@@ -72,7 +72,7 @@ def real_parent(stderr, spawn_error=False, verbose=0):
     options.resume_layer = None
     options.processes = 2
     options.output = OutputFormatter(options)
-    fake = fakeproc.FakePopen({"stdout": b"", "stderr": stderr, "spawn_error": spawn_error})
+    fake = fakeproc.FakePopen({"stdout": b"", "stderr": stderr, "spawn_error": spawn_error, "hold_stderr_open": hold})
     result = fakeproc.SinkResult()
     failures, errors = [], []
     exc = []
@@ -88,7 +88,7 @@ def real_parent(stderr, spawn_error=False, verbose=0):
     with contextlib.redirect_stdout(out):
         t = threading.Thread(target=target)
         t.start()
-        t.join(20)
+        t.join(wait)
     hung = t.is_alive()
     comm = [e for e in errors if e[0] == "subprocess for m.L"]
     other_errors = [e[0] for e in errors if e[0] != "subprocess for m.L"]
@@ -282,6 +282,7 @@ def run(ctx):
                     label, ans["ran"], mf[:3], real["ran"], real["fails"][:3]), case)
     stdout_cases(ctx)
     spawn_failure_cases(ctx)
+    slow_eof_cases(ctx)
     # real children that die at any point, at the OS level or through Python
     from harness import corr_c02
     corr_c02.run_cases(ctx, corr_c02.death_cases(ctx, 10 if ctx.quick() else 200))
@@ -341,6 +342,23 @@ def stdout_cases(ctx):
                               "first difference %r" % (collector, len(res["kept"]), len(want),
                                                        next((bytes(a)[:60] for a, b in zip(want + [[]], res["kept"] + [[]]) if a != b), b"")),
                               rep, signature="channel:collector-lines")
+
+
+def slow_eof_cases(ctx):
+    """the child's report is complete but its stderr stays open for a while (a process started by the tests holds the
+    inherited descriptor): the parent records exactly the report, however long that takes"""
+    for hold in ((6.5,) if ctx.quick() else (6.5, 12.0, 31.0)):
+        rep = (7, ["failing (m.T)", "other (m.T)"], ["erroring (m.T)"])
+        data = real_child_report(*rep)
+        real = real_parent(data, hold=hold, wait=hold + 20)
+        case = {"label": "slow-eof", "hold": hold, "stderr": list(data), "real": real}
+        ctx.count(("slow-eof", hold), nontrivial=True, sample=None)
+        ctx.bump("slow-eof")
+        if real["kind"] != "ok" or real["ran"] != rep[0] or real["fails"] != rep[1] or real["errs"] != rep[2]:
+            ctx.violation("stderr stays open for %.1f s after a complete report (7 tests, 2 failures, 1 error): the parent "
+                          "recorded kind=%s ran=%r failures=%r errors=%r" % (hold, real["kind"], real["ran"], real["fails"],
+                                                                               real["errs"]), case,
+                          signature="channel:slow-eof:" + real["kind"])
 
 
 def spawn_failure_cases(ctx):
